@@ -48,10 +48,13 @@ CHECKS = {
                      'segment-aware; allow/defuse reach every sub-resource construction. Confinement for every spelling of a URL is not decided.',
                 note=NOTE),
     'C13': dict(ref='DESIGN.md §2 C13', technique='handler table, handler-coverage over the exception hierarchy, CFG must-pass-through, per-mode partial '
-                                                    'evaluation, who-may-parse over import-resolved callees',
+                                                    'evaluation, who-may-parse over import-resolved callees, truth-table edge cuts over the '
+                                                    'position tests of the buffered reader',
                 text='Partial: the three refusing expat handlers are installed unconditionally, the refusal cannot be swallowed on the way to '
                      'the caller, every defused open passes the scanner, is_defused() equals the specification per mode, XML is parsed only '
-                     'by the loaders/scanner. That expat invokes the handlers for every payload is trusted, not decided.', note=NOTE),
+                     'by the loaders/scanner, the expat reader is put in parameter-entity mode ALWAYS (base-class mode read from the standard '
+                     'library source), a failed scan is raised, and the buffered wrapper of a non-seekable stream hands the parser the bytes '
+                     'the scanner saw (rewind on every return, realignment of the wrapped stream, buffer served only inside it). That expat invokes the handlers for every payload is trusted, not decided.', note=NOTE),
     'C14': dict(ref='DESIGN.md §2 C14', technique='comparison normalisation with operands identified by their definitions, control-dependence '
                                                     'path conditions, dominance, finite-table evaluation of the attribute-use test',
                 text='Partial: build-time facet restriction tests reject in the same direction as the run-time validators, new bounds are '
@@ -119,4 +122,4 @@ CHECKS = {
 }
 NOT_APPLICABLE = {
 }
-FIX_COMMITS = ['0d39fae', 'ee7fbf0', 'ec74ff3', '0116491', '72bb2c6', '4feb9ab', '7a4e62d', '30a94f5', '6402c4d', 'ecfd2cd', '4061701', '189c2b3', '32b357f', '55a609d', 'a42390f', '47eaeb4', 'f5ca257', '5af3cbd', 'b005669', '4d357b3', '2d00ca1', '2d446c7', 'c2c108f', '4d59c40', '4b7bf54', 'bbdb6e6', '82136ff']
+FIX_COMMITS = ['0d39fae', 'ee7fbf0', 'ec74ff3', '0116491', '72bb2c6', '4feb9ab', '7a4e62d', '30a94f5', '6402c4d', 'ecfd2cd', '4061701', '189c2b3', '32b357f', '55a609d', 'a42390f', '47eaeb4', 'f5ca257', '5af3cbd', 'b005669', '4d357b3', '2d00ca1', '2d446c7', 'c2c108f', '4d59c40', '4b7bf54', 'bbdb6e6', '82136ff', '8e33f76', '8b08716']
